@@ -174,6 +174,48 @@ pub fn build_tree_retry(o: surrealkv::Options) -> surrealkv::Result<surrealkv::T
 
 pub static LOCK_RETRIES: std::sync::atomic::AtomicU64 = std::sync::atomic::AtomicU64::new(0);
 
+/// Wait for a child with a time limit while DRAINING its stdout and stderr (a child that prints more than a pipe holds -
+/// 64 KiB - would otherwise block in write() for ever and look like a hang). Err(TimedOut) = killed after `limit`.
+pub fn wait_child_output(mut c: std::process::Child, limit: std::time::Duration, what: &str) -> std::io::Result<std::process::Output> {
+    use std::io::Read;
+    let so = c.stdout.take();
+    let se = c.stderr.take();
+    let h1 = std::thread::spawn(move || {
+        let mut b = Vec::new();
+        if let Some(mut s) = so {
+            let _ = s.read_to_end(&mut b);
+        }
+        b
+    });
+    let h2 = std::thread::spawn(move || {
+        let mut b = Vec::new();
+        if let Some(mut s) = se {
+            let _ = s.read_to_end(&mut b);
+        }
+        b
+    });
+    let t0 = std::time::Instant::now();
+    let status = loop {
+        match c.try_wait() {
+            Ok(Some(st)) => break Ok(st),
+            Ok(None) if t0.elapsed() > limit => {
+                let _ = c.kill();
+                let _ = c.wait();
+                break Err(std::io::Error::new(std::io::ErrorKind::TimedOut, format!("hung: {what} was still running after {} s and was killed", limit.as_secs())));
+            }
+            Ok(None) => std::thread::sleep(std::time::Duration::from_millis(if t0.elapsed().as_millis() < 200 { 2 } else { 20 })),
+            Err(e) => {
+                let _ = c.kill();
+                let _ = c.wait();
+                break Err(e);
+            }
+        }
+    };
+    let stdout = h1.join().unwrap_or_default();
+    let stderr = h2.join().unwrap_or_default();
+    status.map(|status| std::process::Output { status, stdout, stderr })
+}
+
 pub fn spawn_child(cmd: &mut std::process::Command) -> std::io::Result<std::process::Child> {
     let _g = SPAWN_LOCK.write().unwrap_or_else(|e| e.into_inner());
     cmd.spawn()
